@@ -43,6 +43,7 @@ type decFacts struct {
 	initResolve          string // the switch of (*reader).initialize that resolves / clamps the offset
 	initSeeksResolved    bool   // … followed by conn.Seek(<that offset>, SeekAbsolute)
 	runResetsAttempt     bool   // (*reader).run: `attempt = 0` and `offset = start` after a successful initialize
+	runConnDirect        string // (*reader).run: the Conn methods called directly on the connection (not through r.read / r.readOffsets, which arm a deadline first)
 	runErrcountInc       bool   // … `errcount++` is the last statement of readLoop's body
 	loopBranches         string // per error class of readLoop's switch: what the clause does (canonical words)
 	decoderText          string // (*messageSetReader).readMessage and everything it reaches in message_reader.go / read.go / discard.go (closure)
@@ -948,6 +949,42 @@ func (d *decExtractor) readerLoop(f *ast.File, run, initialize *ast.FuncDecl, fa
 		}
 	}
 	facts.runResetsAttempt = reset && fromStart
+	// what run does with the connection itself: everything that waits for the broker goes through r.initialize /
+	// r.read / r.readOffsets (deadline armed first); directly it only closes the connection and moves its offset
+	// without asking the broker (Seek with SeekDontCheck)
+	connName := ""
+	for _, s := range outer.Body.List {
+		if as, ok := s.(*ast.AssignStmt); ok && len(as.Lhs) == 3 && d.containsCall(as, "$r.initialize") != nil {
+			connName = decName(as.Lhs[0])
+		}
+	}
+	if connName != "" {
+		seen := map[string]bool{}
+		ast.Inspect(outer.Body, func(n ast.Node) bool {
+			call, ok := n.(*ast.CallExpr)
+			if !ok {
+				return true
+			}
+			sel, ok := call.Fun.(*ast.SelectorExpr)
+			if !ok || decName(sel.X) != connName {
+				return true
+			}
+			w := sel.Sel.Name
+			if w == "Seek" && len(call.Args) == 2 {
+				if strings.Contains(d.render(call.Args[1]), "SeekDontCheck") {
+					w += "+DontCheck"
+				}
+			}
+			seen[w] = true
+			return true
+		})
+		var ws []string
+		for w := range seen {
+			ws = append(ws, w)
+		}
+		sort.Strings(ws)
+		facts.runConnDirect = strings.Join(ws, ",")
+	}
 	if readLoop == nil || len(readLoop.Body.List) == 0 {
 		return
 	}
@@ -1356,7 +1393,7 @@ func (f *decFacts) lean() string {
 		"jumpGuard : String", "skipBelow : String", "nextOffsetPlus : Int", "readerNextOffsetPlus : Int",
 		"emptyWhenHwmEqOffset : Bool", "closeStoresOffset : Bool", "oorSeeksConn : Bool",
 		"firstOffsetConst : Int", "lastOffsetConst : Int", "initResolve : String", "initSeeksResolved : Bool",
-		"runResetsAttempt : Bool", "runErrcountInc : Bool", "loopBranches : String", "decoderText : String",
+		"runResetsAttempt : Bool", "runConnDirect : String", "runErrcountInc : Bool", "loopBranches : String", "decoderText : String",
 	} {
 		b.WriteString("  " + fld + "\n")
 	}
@@ -1385,6 +1422,7 @@ func (f *decFacts) lean() string {
 		"initResolve := " + decLeanString(f.initResolve),
 		"initSeeksResolved := " + strconv.FormatBool(f.initSeeksResolved),
 		"runResetsAttempt := " + strconv.FormatBool(f.runResetsAttempt),
+		"runConnDirect := " + decLeanString(f.runConnDirect),
 		"runErrcountInc := " + strconv.FormatBool(f.runErrcountInc),
 		"loopBranches := " + decLeanString(f.loopBranches),
 		"decoderText := " + decLeanString(f.decoderText),
